@@ -107,6 +107,9 @@ static void buildSpace(bool thorough)
     // Shift_JIS was tried and dropped: the ICU converter behind that name (ibm-943) swaps 0x1A/0x1C/0x7F and assigns the
     // unassigned lead bytes differently from the iconv/libxml2 decoder, so the decoding side of the oracle is not sound for it.
     (void)thorough;
+    // GB18030: a transcoder-backed encoding that CAN represent supplementary characters, the only way to reach the
+    // surrogate-pair branch of XalanOtherEncodingWriter::write(XalanUnicodeChar) (verdict by libxml2/iconv only)
+    g_encs.push_back("GB18030");
 }
 
 struct Case
@@ -181,7 +184,7 @@ static const unsigned CP1252_HI[32] = { 0x20AC, 0, 0x201A, 0x0192, 0x201E, 0x202
 enum Tri { NO = 0, YES = 1, MAYBE = 2 };
 static Tri encodable(const std::string& enc, unsigned c)
 {
-    if (enc == "UTF-8" || enc == "UTF-16") return YES;
+    if (enc == "UTF-8" || enc == "UTF-16" || enc == "GB18030") return YES;
     if (c < 0x80) return YES;
     if (enc == "US-ASCII") return NO;
     if (enc == "ISO-8859-1") return c <= 0xFF ? YES : NO;
@@ -293,7 +296,7 @@ static int XMLCALL exUnknownEnc(void*, const XML_Char* name, XML_Encoding* info)
     return XML_STATUS_OK;
 }
 
-static bool expatKnows(const std::string&) { return true; }   // UTF-8, UTF-16, ISO-8859-1, US-ASCII natively; windows-1252 through exUnknownEnc
+static bool expatKnows(const std::string& enc) { return enc != "GB18030"; }   // UTF-8, UTF-16, ISO-8859-1, US-ASCII natively; windows-1252 through exUnknownEnc
 
 static Parsed parseExpat(const std::string& bytes)
 {
